@@ -54,12 +54,10 @@ def handle (j : Json) : Json :=
     (if exclLegacyVarThenLiteral kind d then ["LegacyVarThenLiteral"] else []) ++
     (if exclLegacyURLForm kind d r then ["LegacyURLForm"] else []) ++
     (if exclLegacyFirstServer kind d r then ["LegacyFirstServer"] else []) ++
-    (if exclLegacyNoRouteServer kind d r then ["LegacyNoRouteServer"] else []) ++
     (if exclLegacyPathServers kind d r then ["LegacyPathServers"] else []) ++
-    (if exclLegacyKeyCollision kind d then ["LegacyKeyCollision"] else []) ++
-    (if exclGorillaPathServersLeak kind d r then ["GorillaPathServersLeak"] else [])
+    (if exclLegacyKeyCollision kind d then ["LegacyKeyCollision"] else [])
   -- legacy: the other outcomes that a different insertion order of colliding keys gives
-  let alts := if kind = .legacy ∧ keyCollision (docKeys d) then (legacyFindAll false d r).filter (· ≠ model) else []
+  let alts := if kind = .legacy ∧ keyCollision (docKeys d) then (legacyFindAll d r).filter (· ≠ model) else []
   let pre := if kind = .legacy then "l." else "g."
   let nvars := match model with | .route t _ _ _ => (svarNames (sparseS t)).length | _ => 0
   let branches :=
